@@ -843,6 +843,112 @@ impl BinaryOptions {
     }
 }
 
+
+/// Arrangements of the inputs into files: directory trees with symbolic links that form cycles of every small
+/// shape (to itself, to the parent, to an ancestor with a second way in, two directories pointing at each other,
+/// two loops side by side), links that cannot be resolved (self-referential, a chain longer than the OS follows),
+/// given as sources and as reference directories.  Only "ends with a verdict within the bound" is judged.
+pub struct FileArrangements;
+const ARR_TREES: usize = 9;
+const ARR_ARGS: usize = 8;
+impl FileArrangements {
+    fn scenario(idx: u64) -> Scenario {
+        use crate::proc::Node;
+        let t = (idx as usize) / ARR_ARGS;
+        let a = (idx as usize) % ARR_ARGS;
+        let mut sc = Scenario::default();
+        let file = |n: &str, t: &str| (n.to_string(), Node::File(t.as_bytes().to_vec()));
+        let link = |n: &str, t: &str| (n.to_string(), Node::Symlink(t.to_string()));
+        sc.tree.push(file("a.slice", "module M\nstruct S { a: int32 }\n"));
+        sc.tree.push(("sub".into(), Node::Dir));
+        sc.tree.push(file("sub/c.slice", "module M\nstruct C { s: S }\n"));
+        match t {
+            0 => {}
+            1 => sc.tree.push(link("sub/loop", ".")),
+            2 => sc.tree.push(link("sub/loop", "..")),
+            3 => {
+                sc.tree.push(link("sub/loop", ".."));
+                sc.tree.push(link("dl", "sub"));
+            }
+            4 => {
+                sc.tree.push(("other".into(), Node::Dir));
+                sc.tree.push(file("other/d.slice", "module M\nstruct D {}\n"));
+                sc.tree.push(link("sub/to_other", "../other"));
+                sc.tree.push(link("other/to_sub", "../sub"));
+            }
+            5 => {
+                sc.tree.push(link("sub/l1", "."));
+                sc.tree.push(link("sub/l2", "."));
+            }
+            6 => {
+                sc.tree.push(link("sub/self", "self"));
+                sc.tree.push(link("sub/self.slice", "self.slice"));
+            }
+            7 => {
+                // a chain of links longer than the OS is willing to follow
+                for i in 0..45 {
+                    sc.tree.push(link(&format!("sub/l{i}.slice"), &format!("l{}.slice", i + 1)));
+                }
+                sc.tree.push(file("sub/l45.slice", "module M\nstruct L {}\n"));
+            }
+            _ => {
+                sc.tree.push(link("sub/up1", ".."));
+                sc.tree.push(link("sub/up2", ".."));
+                sc.tree.push(link("top", "."));
+            }
+        }
+        let argv: Vec<&str> = match a {
+            0 => vec!["a.slice", "-R", "."],
+            1 => vec!["a.slice", "-R", "sub"],
+            2 => vec!["-R", ".", "-R", "sub"],
+            3 => vec!["a.slice", "sub/c.slice", "-R", ".", "--diagnostic-format", "json"],
+            4 => vec!["a.slice", "-R", "sub/loop"],
+            5 => vec!["sub/loop/a.slice", "-R", "dl"],
+            6 => vec!["a.slice", "sub/self.slice", "sub/l0.slice"],
+            _ => vec!["a.slice", "-R", "sub/self", "-R", "sub/l0.slice", "-R", "top"],
+        };
+        sc.argv = argv.into_iter().map(|s| s.to_string()).collect();
+        sc
+    }
+}
+impl Family for FileArrangements {
+    fn name(&self) -> String {
+        format!("file-arrangements/{ARR_TREES} directory trees with symbolic-link cycles and unresolvable links x {ARR_ARGS} argument lists (sources, reference directories) through the real binary")
+    }
+    fn len(&self) -> u64 {
+        (ARR_TREES * ARR_ARGS) as u64
+    }
+    fn hang_secs(&self) -> f64 {
+        60.0
+    }
+    fn workers(&self) -> Option<usize> {
+        Some(8)
+    }
+    fn describe(&self, idx: u64) -> Value {
+        let sc = Self::scenario(idx);
+        json!({"argv": sc.argv, "tree": sc.tree.iter().map(|(n, k)| match k { crate::proc::Node::Symlink(t) => format!("{n} -> {t}"), crate::proc::Node::Dir => format!("{n}/"), _ => n.clone() }).collect::<Vec<_>>()})
+    }
+    fn run(&self, idx: u64) -> CaseOut {
+        let sc = Self::scenario(idx);
+        let mut out = CaseOut::new(hash_str(&format!("c01arr{idx}")));
+        out.nontrivial = true;
+        // the statement's bound: 20 s for <= 8 KiB of input
+        let obs = run(&sc, Duration::from_secs(20));
+        let desc = || format!("tree {:?}\nargv {:?}\nexit {:?} signal {:?} timed_out {}\nstderr {}", self.describe(idx)["tree"], obs.argv, obs.exit_code, obs.signal, obs.timed_out, truncate(&show_bytes(&obs.stderr), 600));
+        if obs.timed_out {
+            out.violate("c01/file-arrangements/no-verdict-within-20s", desc());
+        } else if let Some(loc) = obs.panic_location() {
+            out.violate(format!("c01/file-arrangements/panic@{loc}"), desc());
+        } else if obs.signal.is_some() {
+            out.violate("c01/file-arrangements/killed-by-signal", desc());
+        } else if !matches!(obs.exit_code, Some(0) | Some(1) | Some(2)) {
+            out.violate("c01/file-arrangements/exit-status", desc());
+        }
+        out.class = format!("exit{:?}", obs.exit_code);
+        out
+    }
+}
+
 pub fn families(tier: &str) -> Vec<Box<dyn Family>> {
     let quick = tier == "quick";
     let mut v: Vec<Box<dyn Family>> = vec![
@@ -850,6 +956,7 @@ pub fn families(tier: &str) -> Vec<Box<dyn Family>> {
         Box::new(TypeForms::new()),
         Box::new(Soups2 { n: if quick { 2 } else { 3 } }),
         Box::new(BinaryOptions::new(if quick { 2 } else { 6 })),
+        Box::new(FileArrangements),
         Box::new(TokenSoups::new(if quick { 2 } else { 3 }, 0..10)),
         Box::new(TokenMutations::new()),
         Box::new(CharMutations::new(false)),
